@@ -15,6 +15,9 @@ impl<'a> Tr<'a> {
     }
 
     pub fn apply_fn_raw(&mut self, f: &FnInfo, cg: &[Val], recv: Option<&Val>, args: &[&Expr], env: &Env, at: &Expr) -> R<(String, Ty)> {
+        if f.has_mut_params() || f.fuel {
+            return Err(unsupported(at, &format!("call of `{}` (`&mut` parameters / fuel) in a position where its effects cannot be sequenced", f.key)));
+        }
         if !f.assoc_params.is_empty() {
             return Err(unsupported(at, &format!("call of `{}`, whose generic parameters' associated constants are abstracted as parameters", f.key)));
         }
@@ -139,13 +142,20 @@ impl<'a> Tr<'a> {
             return Err(unsupported(at, &format!("call of `{}`: not a configured function (add it to functions.txt before its caller)", n)));
         }
         let fname = segs[segs.len() - 1].as_str();
-        let tname = segs[segs.len() - 2].as_str();
-        if (fname == "min" || fname == "max") && tname == "cmp" && args.len() == 2 {
+        let mut tname_s = segs[segs.len() - 2].clone();
+        if (fname == "min" || fname == "max") && tname_s == "cmp" && args.len() == 2 {
             return self.minmax(fname, args[0], args[1], env, hint, at);
         }
-        if segs.len() != 2 {
+        if segs.len() == 3 {
+            // `module::Type::f`: a module-qualified table key, or just the type
+            let q = format!("{}.{}", segs[0], segs[1]);
+            if self.t.adts.contains_key(&q) {
+                tname_s = q;
+            }
+        } else if segs.len() != 2 {
             return Err(unsupported(at, &format!("call of `{}`", segs.join("::"))));
         }
+        let tname = tname_s.as_str();
         if let Some(t) = IntTy::from_name(tname) {
             if fname == "from" && args.len() == 1 {
                 let v = self.pure(args[0], env, None)?;
@@ -159,7 +169,7 @@ impl<'a> Tr<'a> {
             }
             return Err(unsupported(at, &format!("`{}::{}`", tname, fname)));
         }
-        let tn = if tname == "Self" { self.self_ty.clone().unwrap_or_default() } else { tname.to_string() };
+        let tn = self.resolve_type_name(tname);
         if !self.t.adts.contains_key(&tn) && !self.t.externs.contains_key(&tn) && tname.chars().next().map(|c| c.is_lowercase()).unwrap_or(false) {
             // `module::function(..)`
             let fs = self.find_fns(None, fname);
